@@ -89,6 +89,9 @@ def strategy_(draw, tier):
     if names:
         m2, info = MU.breaking(draw, m, only=["insert_member", "remove_member", "member_type"], type_names=set(names))
     cfg = draw(S.build_config())
+    m["pubhdr"] = S._pick(draw, ["pub.h", "pub.h", "api.v2.h", "pub.hpp", "lib-1.0.public.hxx", "x.h.h"])
+    if m2 is not None:
+        m2["pubhdr"] = m["pubhdr"]
     if info:
         info["affected_public"] = M.affected_by_type(mpub, info["type"])
     return {"model": m, "cfg": cfg, "mutant": m2, "info": info, "private": want_private}
@@ -104,9 +107,10 @@ def files_for(m):
     # the public header only *declares* the private structs/unions
     decls = "".join("%s %s;\n" % (t["kind"], t["name"]) for t in m["types"] if t.get("where") == "priv")
     pub = pub.replace("#define PUB_H\n", "#define PUB_H\n" + decls, 1)
-    files = {"include/pub.h": pub, "priv/priv.h": '#include "../include/pub.h"\n' + M.render_header(m, where="priv", guard="PRIV_H")}
+    hn = m.get("pubhdr", "pub.h")
+    files = {"include/" + hn: pub, "priv/priv.h": '#include "../include/%s"\n' % hn + M.render_header(m, where="priv", guard="PRIV_H")}
     for k in range(M.ntus(m)):
-        files["tu%d%s" % (k, ext)] = M.render_tu(m, k, headers=("include/pub.h", "priv/priv.h"))
+        files["tu%d%s" % (k, ext)] = M.render_tu(m, k, headers=("include/" + hn, "priv/priv.h"))
     return files
 
 
@@ -134,7 +138,9 @@ def run_case(case, cx):
         raise Inconclusive("control run reports nothing (C05's business)")
     cx.nt(case)
     hd = ["--headers-dir1", d + "/v1/include", "--headers-dir2", d + "/v2/include"]
-    hf = ["--header-file1", d + "/v1/include/pub.h", "--header-file2", d + "/v2/include/pub.h"]
+    hn = m.get("pubhdr", "pub.h")
+    hf = ["--header-file1", d + "/v1/include/" + hn, "--header-file2", d + "/v2/include/" + hn]
+    cx.cls("header=" + hn)
     runs = {}
     opts_of = {"headers-dir": hd, "headers-dir+drop-private-types": hd + ["--drop-private-types"], "header-file": hf}
     for tag, opts in (("headers-dir", hd), ("headers-dir+drop-private-types", hd + ["--drop-private-types"]), ("header-file", hf)):
@@ -145,7 +151,7 @@ def run_case(case, cx):
             return
         runs[tag] = r
     cx.sample({"mutation": info, "target_private": private, "rcs": {k: v.rc for k, v in runs.items()},
-               "pub.h": files_for(m)["include/pub.h"][:600]})
+               "public_header": hn, "content": files_for(m)["include/" + hn][:600]})
     det = {"mutation": info, "target_private": private, "files_v1": files_for(m), "control": ctl.brief()}
     for tag, r in runs.items():
         det2 = dict(det, mode=tag, run=r.brief())
